@@ -435,7 +435,7 @@ def parseClaJ (j : Json) : PCla :=
     | _ => [])⟩
 
 def parseClusterJ (j : Json) : PCluster :=
-  { name := jStrD j "name" "", typ := jNatD j "typ" 0, lb := jNatD j "lb" 0, serviceName := jStrD j "serviceName" ""
+  { name := jStrD j "name" "", typ := (jInt j "typ").toOption.getD 0, lb := (jInt j "lb").toOption.getD 0, serviceName := jStrD j "serviceName" ""
     inline := (jObj? j "inline").map parseClaJ
     outlier := (jObj? j "outlier").map (fun o => ⟨optNat o "thr", optNat o "vol"⟩) }
 
